@@ -1092,11 +1092,37 @@ class Interp:
                 return self.exec_fn(self.P.get_fn(self._pick(d, args)), args)
         # 3. dynamic dispatch on the runtime type of the receiver
         if cal.kind == "q" and args:
+            # `<&T as Trait>::m(&&t, ..)`: std's blanket impls for references forward to T's impl with one reference
+            # level removed from the Self-typed arguments
+            nref = 0
+            st = cal.selft
+            while st.startswith("&"):
+                nref += 1
+                st = st[1:].lstrip()
+                if st.startswith("mut "):
+                    st = st[4:]
+            if nref and base_type_name(cal.trait or "") in ("PartialOrd", "PartialEq", "Ord", "Eq", "Clone", "Hash", "Debug", "Display"):
+                def strip(v):
+                    for _ in range(nref):
+                        if isinstance(v, Ptr):
+                            inner = self.read_loc(v.cell, v.path)
+                            if isinstance(inner, Ptr):
+                                v = inner
+                    return v
+                args = [strip(a) for a in args]
             rt = self.runtime_type(args[0])
             if rt is not None:
                 tr = base_type_name(cal.trait) if cal.trait else None
                 if tr in ("Fn", "FnMut", "FnOnce") and isinstance(rt, str) and rt.startswith("{closure@"):
                     return self.call_closure(args[0], args[1])
+                if tr == "PartialOrd" and cal.method in ("lt", "le", "gt", "ge") and self.P.find_def(rt, "PartialOrd", "partial_cmp"):
+                    # provided methods of PartialOrd, defined through the type's own partial_cmp (as in core::cmp)
+                    r = self.call_fn(rt, "PartialOrd", "partial_cmp", args)
+                    if r.variant != "Some":
+                        return B(False)
+                    d = r.fields[0].disc.v
+                    m1, z0, p1 = z3.BitVecVal(-1, 8), z3.BitVecVal(0, 8), z3.BitVecVal(1, 8)
+                    return B({"lt": d == m1, "le": z3.Or(d == m1, d == z0), "gt": d == p1, "ge": z3.Or(d == p1, d == z0)}[cal.method])
                 if tr == "Clone" and cal.method == "clone" and isinstance(rt, str) and rt.startswith("{closure@"):
                     # derived-like clone of a closure environment: captured values are cloned structurally (scalars and
                     # environment tokens copy, Arc pointers alias)
